@@ -325,6 +325,19 @@ def pair_format(rng):
     return A, B, None, lambda p: dict(kind="same")
 
 
+def pair_sympy_matrix_mixed(rng):
+    """A sympy matrix with MIXED monomials (x*y, x**2*y, ...) vs the same terms as an order-tuple dict."""
+    A = base_instance(rng, vtype="sympy", k=rng.choice([2, 2, 3]), N=3)
+    k, d = A["k"], A["d"]
+    mixed = [n for n in order_seq(k, 3) if sum(1 for x in n if x) >= 2]
+    for n in rng.sample(mixed, min(len(mixed), 2)):
+        A["terms"][n] = hermitian.rand_herm(rng, d, complex_=True, dens=(1, 2), amp=2, fill=1.0)
+    A["format"] = "dict"
+    B = copy.deepcopy(A)
+    B["format"] = "sympy_matrix"
+    return A, B, None, lambda p: dict(kind="same")
+
+
 def pair_vtype(rng):
     """Same abstract Hamiltonian, dense / sparse / symbolic values."""
     A = base_instance(rng, vtype="numpy_complex")
@@ -423,7 +436,7 @@ def pair_projection(rng):
 
 KINDS = {
     "C13": [pair_scaled, pair_merged, pair_permuted, pair_subst, pair_vanishing],
-    "C14": [pair_format, pair_vtype, pair_designation, pair_eigenbasis, pair_analytic, pair_projection],
+    "C14": [pair_format, pair_sympy_matrix_mixed, pair_vtype, pair_designation, pair_eigenbasis, pair_analytic, pair_projection],
     "C15": [pair_relabel, pair_basisperm, pair_degrot, pair_conj, pair_shift, pair_scaleall, pair_dsum],
 }
 
